@@ -51,7 +51,7 @@ def pick(tr, rng):
 def wide_history(tid, seed, nvars, steps, focus='mixed'):
     rng = random.Random(seed)
     names = _names(nvars)
-    tr = Trace(tid, names, seed=seed,
+    tr = Trace(tid, names, seed=seed, views=(focus == 'decl'),
                meta=dict(driver='wide', seed=seed, nvars=nvars, focus=focus))
     decl = list(names)
     if rng.random() < 0.7:
@@ -174,7 +174,6 @@ def wide_history(tid, seed, nvars, steps, focus='mixed'):
                 else:
                     gone = rng.sample(unused, rng.randint(1, len(unused)))
                     tr.undeclare(*gone)
-                tr.read_views()
                 # the functions must still be buildable and unique afterwards
                 inner = [n for n in tr.held() if n != 1]
                 for n in rng.sample(inner, min(2, len(inner))):
@@ -208,7 +207,7 @@ def zero_history(tid, seed, nvars):
     rng = random.Random(seed)
     names = _names(max(nvars, 1))[:nvars] if nvars else []
     universe = _names(2)
-    tr = Trace(tid, universe, seed=seed, meta=dict(driver='zero', seed=seed, nvars=nvars))
+    tr = Trace(tid, universe, seed=seed, views=True, meta=dict(driver='zero', seed=seed, nvars=nvars))
 
     def sat_all(u):
         tr.support(u)
@@ -241,7 +240,6 @@ def zero_history(tid, seed, nvars):
     tr.gc()
     if names:
         tr.undeclare(*([] if rng.random() < 0.5 else names))
-        tr.read_views()
     sat_all(1)
     sat_all(-1)
     tr.to_expr_rt(1)
